@@ -18,6 +18,8 @@ CONSTANTS
   W_AppendAlwaysTruncates = FALSE
   W_HeartbeatCommitUnbounded = FALSE
   W_QuorumMinusOne = FALSE
+  PreVote = FALSE
+  W_PreVoteRespCountsAsVote = FALSE
 INIT TraceInit
 NEXT TraceNext
 POSTCONDITION TracePost
